@@ -961,7 +961,9 @@ def _is_mod_of_product_with_mod(x) -> bool:
         dividend = x[2][2]
     else:
         return False
-    return _has(dividend, lambda y: y[0] == "b" and y[1] == "mul" and _has(y, lambda z: z[0] == "b" and z[1] in ("mod", "fdiv")))
+    # trunc(x) IS a product: sign(x) * floor(Abs(x))
+    return _has(dividend, lambda y: ((y[0] == "b" and y[1] == "mul") or (y[0] == "u" and y[1] == "trunc"))
+                and _has(y, lambda z: z[0] == "b" and z[1] in ("mod", "fdiv")))
 
 
 def _den_factors(x):
@@ -977,6 +979,11 @@ def _den_factors(x):
             return factors(y[2])
         return [y]
 
+    def neg_exponent(e):
+        return (e[0] == "n" and e[1] < 0) or (e[0] == "u" and e[1] == "neg")
+
+    if x[0] == "b" and x[1] == "pow" and neg_exponent(x[3]):
+        return factors(x[2])  # b ** -e sits in the denominator
     if x[0] == "u" and x[1] == "neg":
         return _den_factors(x[2])
     if x[0] == "b" and x[1] == "mul":
@@ -992,8 +999,8 @@ def _is_product_quotient(x) -> bool:
 
 
 def _is_sign_consumer(x) -> bool:
-    """an operation SymPy evaluates by deciding the sign of `number - operand`: Max, Min, %, //, floor, ceiling"""
-    return (x[0] == "b" and x[1] in ("max", "min", "mod", "fdiv")) or (x[0] == "u" and x[1] in ("floor", "ceil"))
+    """an operation SymPy evaluates by deciding the sign of `number - operand`: Max, Min, %, //, floor, ceiling, Abs, sign, trunc"""
+    return (x[0] == "b" and x[1] in ("max", "min", "mod", "fdiv")) or (x[0] == "u" and x[1] in ("floor", "ceil", "abs", "sign", "trunc"))
 
 
 def sympy_assert_locus(t):
@@ -1047,13 +1054,14 @@ def sympy_defect_class(t, env) -> str:
       Mod-of-power           Mod(2**M, 6) == 0 (gcd extraction in Mod.eval); also through floor(x/c), which
                              SymPy rewrites with Mod: a power with a non-literal exponent under % // floor ceiling
       Mod-of-product-with-Mod  Mod(Mod(b, 7)*d, 8) becomes Mod(d*Mod(b, 7)**2, 8) (the inner Mod is squared): a % or //
-                             whose dividend contains a product with a % or // inside
+                             whose dividend contains a product (or a trunc, which is the product sign(x)*floor(Abs(x))) with a % or // inside
       lattice-over-quotient  Max(3, 3/Max(x, z)) == 3/Max(x, z), Min(1, Max(a, b)/5) == 1: a Max/Min that has an operand
                              containing a quotient of / by a Max/Min
       product-quotient-sign  (7/(M*N) - 2).is_positive is True for positive INTEGER symbols M, N (None for merely positive ones): a number
                              minus c/(product of >= 2 integer symbols) is taken to be positive whenever c exceeds the number, so
-                             Max(7, 10/(M*N)) == 10/(M*N), Min(7, 10/(M*N)) == 7, Mod(2, 7/(M*N)) == 2, Mod(2, -7/(K*M*N)) == 2 - 7/(K*M*N):
-                             a Max / Min / % / // / floor / ceiling over a true quotient whose denominator has >= 2 non-literal factors
+                             Max(7, 10/(M*N)) == 10/(M*N), Min(7, 10/(M*N)) == 7, Mod(2, 7/(M*N)) == 2, Mod(2, -7/(K*M*N)) == 2 - 7/(K*M*N),
+                             Abs(1 - 1/(a*b)) == 1/(a*b) - 1 (negative!): a Max / Min / % / // / floor / ceiling / Abs / sign / trunc over a true
+                             quotient whose denominator (negative powers included) has >= 2 non-literal factors
     anything else is 'unclassified' and is NOT covered by a known finding."""
     locus = sympy_defect_locus(t, env)
     if _has(locus, _is_sym_pow) and _has(locus, lambda x: x[0] in "ub" and x[1] in ("mod", "fdiv", "floor", "ceil")):
